@@ -131,7 +131,12 @@ def strict_eq(a, b, unordered_maps=False):
     if is_gen_obj(a) or is_gen_obj(b):
         if type(a) is not type(b):
             return False
-        return strict_eq(a._yv_state(), b._yv_state(), unordered_maps)
+        sa, sb = a._yv_state(), b._yv_state()
+        if unordered_maps and sa[2] is not None and sb[2] is not None:
+            # extras: an ordered mapping; compare as a mapping here
+            return (strict_eq(sa[:2], sb[:2], True)
+                    and strict_eq(dict(sa[2]), dict(sb[2]), True))
+        return strict_eq(sa, sb, unordered_maps)
     if isinstance(a, float) and isinstance(b, float):
         if type(a) is not type(b):
             return False
